@@ -32,7 +32,8 @@ ANCHORS = ['recursiveloader:ManifestRecursiveLoader.assert_directory_verifies',
            'recursiveloader:ManifestRecursiveLoader.update_entries_for_directory',
            'verify:verify_path', 'verify:update_entry_for_path']
 REQUIRED = ['recursiveloader:ManifestRecursiveLoader.load_unregistered_manifests',
-            'expect:loop', 'expect:noloop', 'xdev_cases', 'walk_yields', 'pairs_cases']
+            'expect:loop', 'expect:noloop', 'xdev_cases', 'walk_yields', 'pairs_cases',
+            'xdev_cli_cases']
 ASSUMPTIONS = ['/dev/shm is a file system different from the scratch directory '
                '(checked at run time)',
                'a stray (unlisted) file on another device may be reported as a stray '
@@ -365,6 +366,8 @@ def exec_xdev(ctx, case):
                   if (case['listed'] or not mtext.comp_prefix(f, lp))
                   and not (case['what'] == 'manifest' and f == lp)]
         write_manifest(root, listed, ignores, extra)
+        if case['listed'] and not case['ignored'] and case['what'] in ('dir', 'file'):
+            cli_multi_xdev(ctx, d, root, case, lp, listed, ignores, extra)
         for walker in WALKERS + ['update-inc', 'create']:
             if walker == 'create' and case['ignored']:
                 continue        # nothing can be IGNOREd before a Manifest exists
@@ -400,6 +403,53 @@ def exec_xdev(ctx, case):
                         walker, case['what'], 'listed' if case['listed'] else 'stray'),
                         '%s completed (%r) in one-file-system mode although %s %r is on '
                         'another device' % (walker, val, case['what'], lp), c2)
+
+
+def cli_multi_xdev(ctx, d, root, case, lp, listed, ignores, extra):
+    """`gemato verify|update -x P1 P2 ..`: one-file-system mode holds for every path
+    of the invocation, wherever the tree that crosses the boundary stands."""
+    from gemato import cli as gcli
+    clean = os.path.join(d, 'clean')
+    os.makedirs(os.path.join(clean, 'sub'))
+    with open(os.path.join(clean, 'sub', 'f'), 'w') as f:
+        f.write('clean')
+    write_manifest(clean, ['sub/f'], [])
+    with open(os.path.join(root, 'Manifest'), 'rb') as f:
+        before = f.read()
+    for cmd in ('verify', 'update'):
+        for order in ([root], [clean, root], [root, clean], [clean, clean, root]):
+            argv = ['gemato', cmd, '-x']
+            if cmd == 'update':
+                argv += ['--hashes', 'SHA256']
+            argv += order
+            c2 = dict(case, walker='cli-' + cmd, allow_xdev=False,
+                      order=[os.path.basename(o) for o in order])
+            ctx.case(sig=('xdev-cli', case['what'], cmd, tuple(c2['order'])), case=c2,
+                     klass='xdev-cli')
+            ctx.count('xdev_cli_cases')
+            try:
+                rc = gcli.main(argv)
+            except SystemExit as exc:
+                rc = 'exit:%r' % (exc.code,)
+            except Exception as exc:
+                ctx.violation('xdev-walker-raises:cli-%s:%s' % (cmd, adapt.exc_key(exc)),
+                              '`%s` raised %r' % (' '.join(argv[:3]), exc), c2)
+                continue
+            with open(os.path.join(root, 'Manifest'), 'rb') as f:
+                after = f.read()
+            if rc == 0:
+                ctx.violation('xdev-not-raised:cli-%s:%s:listed' % (cmd, case['what']),
+                              '`gemato %s -x %s` returned 0 although %s %r is on another '
+                              'device' % (cmd, ' '.join(c2['order']), case['what'], lp),
+                              c2)
+            elif after != before:
+                ctx.violation('xdev-update-wrote:cli-update',
+                              '`gemato update -x %s` failed (rc %r) but rewrote the '
+                              'Manifest of the tree that crosses the boundary'
+                              % (' '.join(c2['order']), rc), c2)
+            # (whatever happened, start the next command from the same state)
+            write_manifest(root, listed, ignores, extra)
+            write_manifest(clean, ['sub/f'], [])
 
 
 def exec_pairs(ctx, case):
